@@ -32,7 +32,7 @@ func init() {
 
 // scalarOracle evaluates l.AST with engine and reference and compares the values.
 func scalarOracle(l *harness.Live) (harness.Value, *harness.Failure) {
-	rv, err := xref.Eval(&xref.Env{Doc: l.Doc}, l.AST, l.Ctx)
+	rv, err := xref.Eval(refEnvOf(l), l.AST, l.Ctx)
 	if err != nil {
 		return harness.Value{}, refFailure(err)
 	}
